@@ -76,12 +76,41 @@ def build_simple(g):
                 G.remove_edge(a, b)
                 G.add_edge(b, a)
         return G
-    if kind == 'networkx-shuffled':
+    if kind == 'cnfgen-pruned':
+        # same graph reached from a denser one: extra edges are inserted and removed again (named in either orientation),
+        # and the order is "raised" to values that are not larger than the current one (documented as no change)
+        r = _rng(g)
+        n = g['n']
+        have = set(tuple(e) for e in g['edges'])
+        allp = [(u, v) for u in range(1, n + 1) for v in range(u + 1, n + 1) if (u, v) not in have]
+        extra = r.sample(allp, min(len(allp), 2 + len(have) // 2))
+        G = Graph(n)
+        mixed = [(e, True) for e in have] + [(e, False) for e in extra]
+        r.shuffle(mixed)
+        for (u, v), _keep in mixed:
+            G.add_edge(u, v)
+        G.update_vertex_number(max(0, n - 2))
+        for (u, v) in extra:
+            if r.random() < 0.5:
+                u, v = v, u
+            G.remove_edge(u, v)
+        G.update_vertex_number(0)
+        G.update_vertex_number(n)
+        return G
+    if kind in ('networkx-shuffled', 'networkx-directed'):
         r = _rng(g)
         nodes = list(range(1, g['n'] + 1))
         r.shuffle(nodes)
         es = [tuple(e) if r.random() < 0.5 else (e[1], e[0]) for e in g['edges']]
         r.shuffle(es)
+        if kind == 'networkx-directed':
+            # a directed networkx graph is a legal description of a simple graph: arcs in either direction, some in both
+            G = networkx.DiGraph()
+            G.add_nodes_from(nodes)
+            G.add_edges_from(es)
+            G.add_edges_from((v, u) for i, (u, v) in enumerate(es) if i % 3 == 0)
+            G.name = 'nx digraph standing for a simple graph'
+            return G
         G = networkx.Graph()
         G.add_nodes_from(nodes)
         G.add_edges_from(es)
@@ -160,6 +189,19 @@ def build_bipartite(g):
     if kind == 'cnfgen-complete-class' and len(g['edges']) == L * R:
         from cnfgen.graphs import CompleteBipartiteGraph
         return CompleteBipartiteGraph(L, R)          # the class the 'complete L R' construction uses (it stores no edges)
+    if kind == 'networkx-directed':
+        # a directed networkx graph with arcs left->right and right->left describes the same bipartite graph
+        r = _rng(g)
+        G = networkx.DiGraph()
+        G.add_nodes_from(range(1, L + 1), bipartite=0)
+        G.add_nodes_from(range(L + 1, L + R + 1), bipartite=1)
+        for u, v in g['edges']:
+            if r.random() < 0.5:
+                G.add_edge(u, L + v)
+            else:
+                G.add_edge(L + v, u)
+        G.name = 'nx bipartite digraph'
+        return G
     if kind == 'networkx-shuffled':
         r = _rng(g)
         nodes = [('l', i) for i in range(1, L + 1)] + [('r', i) for i in range(1, R + 1)]
@@ -274,9 +316,9 @@ def build_digraph(g):
 
 # rotations used by the enumerated slices so that every way of handing over a graph meets every shape
 SIMPLE_ROT = ('networkx', 'cnfgen', 'cnfgen-grown', 'cnfgen-batch', 'networkx-rev', 'networkx-gaps', 'cnfgen-rejected', 'cnfgen', 'networkx-digits',
-              'cnfgen-batch-iter', 'networkx-shuffled', 'cnfgen-readd', 'cnfgen')
+              'cnfgen-batch-iter', 'networkx-shuffled', 'cnfgen-readd', 'cnfgen', 'cnfgen-pruned', 'networkx-directed')
 BIP_ROT = ('networkx', 'cnfgen', 'networkx-rl', 'cnfgen-inspected', 'cnfgen-complete-class', 'networkx-gaps', 'cnfgen-rejected', 'cnfgen-batch',
-           'networkx-shuffled', 'cnfgen', 'cnfgen-complete-class')
+           'networkx-shuffled', 'cnfgen', 'cnfgen-complete-class', 'networkx-directed')
 DAG_ROT = ('networkx', 'cnfgen', 'networkx-rev', 'cnfgen-rejected', 'cnfgen-batch', 'networkx-gaps', 'cnfgen', 'networkx-shuffled')
 
 
@@ -334,7 +376,7 @@ def _edge_subset(draw, P, max_edges=None):
 
 @st.composite
 def simple_graphs(draw, nmin=0, nmax=7, max_edges=None, kinds=('cnfgen', 'networkx', 'networkx-rev', 'cnfgen-grown', 'networkx-gaps', 'networkx-digits', 'cnfgen-rejected',
-                         'cnfgen-batch', 'cnfgen-batch-iter', 'networkx-shuffled', 'cnfgen-readd')):
+                         'cnfgen-batch', 'cnfgen-batch-iter', 'networkx-shuffled', 'cnfgen-readd', 'cnfgen-pruned', 'networkx-directed')):
     n = draw(st.integers(nmin, nmax))
     edges = _edge_subset(draw, all_pairs(n), max_edges)
     return {'n': n, 'edges': edges, 'as': draw(st.sampled_from(list(kinds)))}
@@ -342,7 +384,7 @@ def simple_graphs(draw, nmin=0, nmax=7, max_edges=None, kinds=('cnfgen', 'networ
 
 @st.composite
 def bipartite_graphs(draw, Lmin=0, Lmax=4, Rmin=0, Rmax=5, max_edges=None, kinds=('cnfgen', 'networkx', 'networkx-rl', 'cnfgen-inspected', 'networkx-gaps', 'cnfgen-rejected', 'cnfgen-batch', 'networkx-shuffled',
-                            'cnfgen-complete-class')):
+                            'cnfgen-complete-class', 'networkx-directed')):
     L = draw(st.integers(Lmin, Lmax))
     R = draw(st.integers(Rmin, Rmax))
     P = [(u, v) for u in range(1, L + 1) for v in range(1, R + 1)]
